@@ -617,6 +617,62 @@ example : (openStep (B := SymBody) exQ 700).2 = [Out.exitOut 700 55 1, Out.exitO
 example : get (openStep (B := SymBody) exQ 700).1.exits 701 = get exQ.exits 701 := by decide
 example : QueueOwn (Node.init 1) := by decide
 
+
+/-! ## an id is not handed to another circuit while an extension of the old one is pending (id re-use over time) -/
+
+/-- `PendingCovered` (every pending CreateRequestCache refers to an id still held by the created-cache) is preserved
+    by EVERY step: removing an exit socket, a relay or a circuit does not release the id; only the time-out tick
+    does, and it drops the pending requests with it -/
+theorem pending_covered_step (n : Node) (e : Ev B) (hp : PendingCovered n) : PendingCovered (step A n e).1 := by
+  refine pc_of_cc ?_ hp
+  cases e with
+  | cell src c ch => exact processCell_cc A n src c ch
+  | destroy signer cid ok => exact onDestroy_cc n signer cid ok
+  | create cid goal hpeer ha ident =>
+    exact cc_same (by simp only [step, apiCreate]; exact (sendMsg_cc A _ _ _ _).1)
+      (by simp only [step, apiCreate]; exact (sendMsg_cc A _ _ _ _).2)
+  | sendData cid dest tag =>
+    simp only [step, apiSendData]
+    repeat' (first | exact cc_same rfl rfl | exact cc_same (sendMsg_cc A _ _ _ _).1 (sendMsg_cc A _ _ _ _).2 | split)
+  | tunnelData cid org tag =>
+    simp only [step, apiTunnelData]
+    repeat' (first | exact cc_same rfl rfl | exact cc_same (sendMsg_cc A _ _ _ _).1 (sendMsg_cc A _ _ _ _).2 | split)
+  | ping => exact cc_same (pingAll_cc A n n.circuits).1 (pingAll_cc A n n.circuits).2
+  | rmCircuit cid =>
+    simp only [step, apiRemoveCircuit]
+    repeat' (first | exact cc_same rfl rfl | split)
+  | rmExit cid =>
+    simp only [step, apiRemoveExit]
+    repeat' (first | exact cc_same rfl rfl | split)
+  | rmRelay cid =>
+    simp only [step, apiRemoveRelay]
+    repeat' (first | exact cc_same rfl rfl | split | dsimp only)
+  | openStep cid =>
+    simp only [step, openStep]
+    repeat' (first | exact cc_same rfl rfl | split | dsimp only)
+  | tick => exact Or.inr rfl
+
+theorem pending_covered_history (n : Node) (es : List (Ev B)) (hp : PendingCovered n) :
+    PendingCovered (run A n es) := by
+  induction es generalizing n with
+  | nil => exact hp
+  | cons e t ih => exact ih _ (pending_covered_step A n e hp)
+
+/-- consequence: as long as an extension of circuit id X is pending at a node, a CREATE for X is refused there —
+    whether or not X's exit entry still exists.  So a late CREATED can never find, under `from_circuit_id`, an exit
+    entry that was created for a different circuit after the extension was requested. -/
+theorem no_recreate_while_extension_pending (n : Node) (hp : PendingCovered n) (rq : CreateReq) (hrq : rq ∈ n.creates)
+    (src ident pk dh : Nat) : onCreate A n src rq.fromId ident pk dh = (n, []) :=
+  create_in_use_refused A n src rq.fromId ident pk dh (Or.inr (hp rq hrq))
+
+example : PendingCovered (Node.init 1) := by intro rq h; cases h
+example : PendingCovered exP ∧ exP.creates ≠ [] := by
+  refine ⟨?_, by decide⟩
+  intro rq h
+  simp [exP, Node.init] at h
+  subst h
+  decide
+
 /-! ## any number of third-party events, in any order -/
 
 /-- every single foreign event is a no-op on the whole node state -/
